@@ -233,6 +233,12 @@ void StringDictionaryXBW::save(std::ostream &out) {
   saveValue<uint64_t>(out, elements);
   saveValue<uint32_t>(out, maxlength);
 
+  if (alpha == NULL) {
+    // Loaded dictionary: only the succinct representation is kept
+    xbw->save(out);
+    return;
+  }
+
   out.write((char *)&len, sizeof(uint));
   out.write((char *)mapping, 257 * sizeof(uint));
   out.write((char *)alpha, len * sizeof(uint));
